@@ -204,6 +204,33 @@ func runC03(r *mon.Run) {
 				}
 			}
 		}
+		// object history: the received objects are verified (and refused), then the secret-key response of one member is overwritten
+		// with its neighbour's in place and the same objects are verified again - equal responses alone must not link
+		// proofs whose commitments answer for different secrets
+		for a := 0; a < j.n; a++ {
+			for b := 0; b < j.n; b++ {
+				if a == b || secrets[a].Cmp(secrets[b]) == 0 {
+					continue
+				}
+				obj := cloneList(list)
+				ok0, _, _ := verifyList(obj, pks, ctx, nonce, false, nil)
+				src := obj[a].SecretKeyResponse()
+				if ok0 || src == nil {
+					continue
+				}
+				switch q := obj[b].(type) {
+				case *gabi.ProofD:
+					q.AResponses[0] = cp(src)
+				case *gabi.ProofU:
+					q.SResponse = cp(src)
+				}
+				desc := fmt.Sprintf("%s member %d's secret-key response overwritten with member %d's on objects that were verified before", shape, b, a)
+				r.Distinct("equalised-reused-objects", desc)
+				ok, pv, _ := verifyList(obj, pks, ctx, nonce, false, nil)
+				r.Eval("equalised-reused-objects", outcome(ok, pv))
+				c03Oracle(r, "equalised-reused-objects", desc, ok, secrets, nil, obj, pks)
+			}
+		}
 		if ji%97 == 0 {
 			r.Sample(map[string]any{"family": "lib-shared", "shape": shape, "labelings": len(labelings)})
 		}
@@ -236,6 +263,7 @@ func runC03(r *mon.Run) {
 	r.FloorFam("collude-disclose0", 10)
 	r.FloorFam("collude-split0", 10)
 	r.FloorFam("collude-crt", 10)
+	r.FloorFam("equalised-reused-objects", 50)
 }
 
 // c03Collude: member a is proved honestly for secret s_a; member b holds s_b != s_a and tries to present the same secret-key response.
